@@ -76,6 +76,20 @@ impl<'a> Clean<'a> {
           let ok = if acc.rem_euclid(*modulus) == *m { self.ops(t, then, acc) } else { self.ops(t, els, acc) };
           if !ok { return false; }
         }
+        Op::Switch { res, cases } => {
+          self.note_chk(t, Target::Res(self.prog.resources[*res]), Some(RK::Exact), None, false);
+          if let Some(w) = self.writer_of.get(res).copied() {
+            if w == t { self.ill.push(Ill::SelfReadWrite { res: *res, task: t }); }
+            else if !self.path(t, w) { self.ill.push(Ill::HiddenRead { res: *res, reader: t, writer: w }); }
+          }
+          self.readers.entry(*res).or_default().push(t);
+          let val = self.world[*res];
+          *acc = fold(*acc, RK::Exact.observe(val));
+          if !cases.is_empty() {
+            let case = val.map(|v| v.rem_euclid(cases.len() as Val) as usize).unwrap_or(0);
+            if !self.ops(t, &cases[case], acc) { return false; }
+          }
+        }
         Op::Read { res, chk } => {
           self.note_chk(t, Target::Res(self.prog.resources[*res]), Some(*chk), None, false);
           if let Some(w) = self.writer_of.get(res).copied() {
